@@ -6,6 +6,8 @@ ALL = ["C%02d" % i for i in range(1, 21)]
 BASE_OFF = "cd /repo && env -u ASCMHL_VERIF /venv/bin/python -m pytest -ra -q -p no:cacheprovider --timeout=900 --continue-on-collection-errors"
 T = "in-process CliRunner on tmpfs as accelerator, every alarm re-run in one fresh subprocess per command; CPython, hashlib, xxhash, lxml/libxml2 trusted; bounds and alphabets as listed in the evidence file"
 CHECKS = {
+ "C10": ("E2", "exploration", "bounded-exhaustive enumeration of model objects (all deviations from a default object in <=2-3 fields) and of all legal code points, on the real writer/reader pair",
+         "Every model object that deviates from a default manifest in at most two (thorough: three) fields over per-field alphabets of awkward values, chain files over awkward folder names, and every XML-legal non-control code point as part of a path are written with the tool's writer and read back with the tool's reader and an independent lxml reader; manifests of real command sequences are cross-read as well.", "4 C10"),
  "C01": ("E2", "exploration", "bounded-exhaustive enumeration of the finite product lengths x contents x format sets x entry points on the real code",
          "The only length-dependent code paths are the two 1 MiB read loops; every length class around that boundary, three content families (incl. one that differs in every MiB), every subset of the seven formats in both orders and every entry point (library one-shot / streaming / multi-format, CLI hash, create, verify) are executed and compared with one-shot hashlib/xxhash digests; the C4 text codec is driven with a stub hasher over a structured family of 512-bit values covering every digit length.", "4 C01"),
  "C19": ("E1", "model_checking", "explicit-state BFS on the real code with info / info -sf evaluated as invariants in every state",
